@@ -993,9 +993,61 @@ func (ex *Explorer) inline(fi *core.FuncInfo, call *ast.CallExpr, st *State, inD
 		})
 	}
 	declared := map[string]bool{}
+	// bool parameters and locals of the callee are tracked like those of the root function,
+	// unless their address is taken or a closure assigns them
+	calleeUnsafe := map[string]bool{}
+	var uwalk func(n ast.Node, inLit bool)
+	uwalk = func(n ast.Node, inLit bool) {
+		ast.Inspect(n, func(m ast.Node) bool {
+			switch x := m.(type) {
+			case *ast.FuncLit:
+				uwalk(x.Body, true)
+				return false
+			case *ast.AssignStmt:
+				if inLit {
+					for _, l := range x.Lhs {
+						if id, ok := l.(*ast.Ident); ok {
+							calleeUnsafe[id.Name] = true
+						}
+					}
+				}
+			case *ast.IncDecStmt:
+				if id, ok := x.X.(*ast.Ident); ok && inLit {
+					calleeUnsafe[id.Name] = true
+				}
+			case *ast.UnaryExpr:
+				if x.Op == token.AND {
+					if id, ok := x.X.(*ast.Ident); ok {
+						calleeUnsafe[id.Name] = true
+					}
+				}
+			}
+			return true
+		})
+	}
+	uwalk(fi.Decl.Body, false)
+	assignedInCallee := map[string]bool{}
+	ast.Inspect(fi.Decl.Body, func(n ast.Node) bool {
+		switch x := n.(type) {
+		case *ast.AssignStmt:
+			for _, l := range x.Lhs {
+				if id, ok := l.(*ast.Ident); ok {
+					assignedInCallee[id.Name] = true
+				}
+			}
+		case *ast.IncDecStmt:
+			if id, ok := x.X.(*ast.Ident); ok {
+				assignedInCallee[id.Name] = true
+			}
+		}
+		return true
+	})
 	ast.Inspect(fi.Decl, func(n ast.Node) bool {
 		if id, ok := n.(*ast.Ident); ok && ex.Info.Defs[id] != nil {
 			declared[id.Name] = true
+			if bt, ok := ex.Info.Defs[id].Type().Underlying().(*types.Basic); ok && bt.Kind() == types.Bool && !calleeUnsafe[id.Name] && !ex.unsafe[id.Name] {
+				ex.track[id.Name] = true
+			}
 		}
 		return true
 	})
@@ -1120,12 +1172,13 @@ func (ex *Explorer) inline(fi *core.FuncInfo, call *ast.CallExpr, st *State, inD
 		}
 		o.retFacts = retFacts
 		for i := len(rens) - 1; i >= 0; i-- {
-			// facts about the parameter path hold for the argument path
+			// facts about the parameter path hold for the argument path — unless the callee
+			// assigned the parameter itself (its copy then differs from the caller's variable)
 			for k, v := range o.Env {
 				if mentions(k, rens[i].to) {
 					nk := replaceIdent(k, rens[i].to, rens[i].from)
 					delete(o.Env, k)
-					if !mentionsDeclared(nk) {
+					if !mentionsDeclared(nk) && !assignedInCallee[rens[i].to] {
 						o.Env[nk] = v
 						ex.track[nk] = true
 					}
